@@ -21,7 +21,7 @@ import (
 // response (real http.Transport over the simulated transport).
 
 func init() {
-	register(&Prop{ID: "C13", Run: runC13, Enum: enumC13, Quick: 4000, Thorough: 300000, Level: "exploration",
+	register(&Prop{ID: "C13", Run: runC13, Enum: enumC13, Quick: 4000, Thorough: 300000, Level: "exploration", Race: true,
 		Exhaustive: "response grammar: status x Connection x Upgrade x accept-key x subprotocol x extension variants x client mode (thorough); covering sample (quick)"})
 }
 
@@ -104,6 +104,8 @@ func enumC13(tier string) [][]uint32 {
 	}
 	return out
 }
+
+type c13SideKey struct{}
 
 func runC13(r *Run) {
 	t := r.Tape
@@ -333,13 +335,19 @@ func runC13(r *Run) {
 		}
 	}
 	dialN := 0
+	var sideRecs []*attemptRec
 	tr := &http.Transport{
 		DisableKeepAlives: true, // one transport connection per Dial attempt
 		DialContext: func(ctx context.Context, network, addr string) (net.Conn, error) {
 			ce, se := simrt.Pipe(r.S, fmt.Sprintf("d%d", dialN))
 			r.Track(nil, ce, se)
 			rec := &attemptRec{ce: ce}
-			recs = append(recs, rec)
+			if ctx.Value(c13SideKey{}) != nil {
+				// the concurrent side dial: only its request is looked at
+				sideRecs = append(sideRecs, rec)
+			} else {
+				recs = append(recs, rec)
+			}
 			n := dialN
 			dialN++
 			r.S.Go(fmt.Sprintf("srv%d", n), func() { serve(se, rec, n) })
@@ -410,6 +418,26 @@ func runC13(r *Run) {
 		}
 		tr.CloseIdleConnections()
 	})
+	// a second caller dials at the same time with options of its own (another
+	// goroutine of the application, the same http.Client): whatever the
+	// response, its request must carry a key of its own
+	sideDial := t.Pct(30)
+	r.DrawYields()
+	if sideDial {
+		r.S.Go("dialer2", func() {
+			for k := t.Draw(3); k > 0; k-- {
+				r.S.Park("a.dialer2")
+			}
+			ctx, cancel := context.WithTimeout(context.WithValue(context.Background(), c13SideKey{}, true), 10*time.Second)
+			defer cancel()
+			c, _, _ := websocket.Dial(ctx, "ws://sim.test/side", &websocket.DialOptions{HTTPClient: hc})
+			if c != nil {
+				r.Track(c)
+				c.CloseNow()
+			}
+			r.S.Count("probe.concurrent-dial")
+		})
+	}
 	r.S.Loop()
 	if r.S.Aborted != "" {
 		if r.S.Aborted == "sim-time" {
@@ -419,6 +447,16 @@ func runC13(r *Run) {
 	}
 	// ---- request side
 	keys := map[string]bool{}
+	for _, rec := range sideRecs {
+		if rec.reqHdr == nil {
+			continue
+		}
+		kb, err := base64.StdEncoding.DecodeString(rec.key)
+		if err != nil || len(kb) != 16 {
+			r.Violate("request-key", sig+",request,side-dial", "concurrent Dial: Sec-WebSocket-Key %q is not base64 of 16 bytes", rec.key)
+		}
+		keys[rec.key] = true
+	}
 	for i, rec := range recs {
 		if rec.reqHdr == nil {
 			continue
